@@ -4,7 +4,7 @@ from __future__ import annotations
 import ast
 from typing import Dict, List, Optional, Set, Tuple
 
-from ..flow import Analysis, Engine, always_raises
+from ..flow import Analysis, Engine, always_raises, nonempty_test
 from ..index import AnalysisError, dotted, last_name, norm_stmt, parent
 from ..report import Finding, RuleResult
 
@@ -303,7 +303,7 @@ def rule_parcheck(ctx, prop: str) -> RuleResult:
     # (b) run(): errors abort
     raises = False
     for n in run.body_nodes():
-        if isinstance(n, ast.If) and "_errors" in ast.unparse(n.test) and always_raises(n.body):
+        if isinstance(n, ast.If) and nonempty_test(n.test, "_errors") and always_raises(n.body):
             raises = True
     res.instances += 1
     res.ob(raises)
